@@ -175,6 +175,7 @@ func runC06(c *report.Ctx) {
 	ruleMemoryTipFollowsPersistedTip(c) // after a restart the in-memory tip is the persisted one
 	ruleTaskQueuedAfterDurableMarker(c)
 	ruleRollbackBeforeCursorMoves(c)
+	ruleRollbackHeightFollowsTheWalk(c)
 	ruleStatusRowsOneDecoder(c) // the start-up scan resumes what the status rows say
 
 	c.Rule("step-table", "each logical step performs all its mutations and its progress marker inside one Update closure", 9)
